@@ -49,6 +49,13 @@ CHECKS["C11"] = dict(level="other", design="3/C11", technique="type facts on the
     text="static_integer/static_number are the documented compositions and every operator result keeps both tags with oracle-sufficient digits; from each public operator the call graph reaches a custom_operator of the overflow tag, from it one of elastic_tag, (for /) the rounding tag's divide, then wide_tag; three-operation chains equal plain arithmetic; narrowing assignments return the (mode-)rounded value inside the declared range and the bound / the right signal outside, for every source value.",
     note="Multi-limb value-level behaviour (C10), rounding direction of / for two free operands (C08) and chains longer than three operations are not decided; neg_inf narrowing lines are undecided (periodic conditions).")
 
+CHECKS["C13"] = dict(level="other", design="3/C13", technique="type facts on to_chars_capacity vs a decimal-length oracle; CFG dominance rule on byte stores, a path rule on value_too_large returns and who-may-call rules over -O1 -fno-inline LLVM IR",
+    text="Capacity of the fixed-size variants is compared with the exact maximum decimal length for integers (8..128 bit) and integral scaled types; every byte store of the integer path and the scaled overload's sign is dominated by a failed comparison of the written pointer with `last`; every return of errc::value_too_large carries ptr == last; the digit-writing internals are called only from the to_chars family and the fixed-capacity entry points reach the buffer only through cnl::to_chars.",
+    note="The layout arithmetic of solve_fixed/solve_scientific/fill (where a silent overrun would have to come from) is a relational fact over run-time integers and is NOT decided; the claim covers the structural necessary conditions listed.")
+CHECKS["C14"] = dict(level="other", design="3/C14", technique="call-graph reachability, forbidden-callee and argument-derivation rules on -O1 -fno-inline LLVM IR of the fixed-capacity output entry points",
+    text="Decides only the property's last sentence: to_string, to_chars_static and operator<< (scaled_integer, 128-bit integers) obtain their text from cnl::to_chars applied to the same value, pass the result's own character array as the buffer, compute the length from the returned pointer, and cannot reach any other number formatter.",
+    note="Digit generation, truncation direction and exponent after rescaling are loops over run-time digits and are not decided.")
+
 NOT_APPLICABLE = {
     "C10": "limb-array loops of the vendored uintwide_t have data-dependent control; no static abstraction in reach relates them to arithmetic mod 2^N (DESIGN 3/C10)",
     "C17": "termination/accuracy of the floating-point driven Stern-Brocot loop is a numerical statement with no structural clause (DESIGN 3/C17)",
